@@ -52,6 +52,10 @@ type outcome struct {
 	planErr   string
 	nonEmpty  bool
 	explained []string
+	explMasks []uint32 // every subset of deviant rules (bit = index into deviants) that reproduces the answer
+	pre       string
+	where     string
+	diff      string
 	info      []string // informational observations (never violations)
 	stmts     int
 }
@@ -356,47 +360,102 @@ func (w *worker) evaluate(c caseSpec, db *Database, verbose bool) (out outcome) 
 			applicable = append(applicable, i)
 		}
 	}
-	best, bestBits := -1, 0
+	// every subset of the applicable rules that reproduces the implementation's answer (global rule indexes)
 	for mask := 1; mask < 1<<len(applicable); mask++ {
-		bits := 0
-		for i := range applicable {
-			if mask&(1<<i) != 0 {
-				bits++
-			}
-		}
-		if best >= 0 && bits >= bestBits {
-			continue
-		}
 		var rules Rules
+		var gmask uint32
 		for i, di := range applicable {
 			if mask&(1<<i) != 0 {
 				deviants[di].set(&rules)
+				gmask |= 1 << di
 			}
 		}
 		if ok, _, _, _ := agree(impl, db, &c, rules, edge); ok {
-			best, bestBits = mask, bits
+			out.explMasks = append(out.explMasks, gmask)
 		}
 	}
-	pre := ""
 	if spansOnly {
-		pre = "spans:"
+		out.pre = "spans:"
 	}
-	where := fmt.Sprintf("%s on %s window %s %s limit %d mode %s", c.Text, c.DB, c.Window, windowString(c.Params), c.Params.Limit, c.Mode)
-	if best >= 0 {
-		for i, di := range applicable {
-			if best&(1<<i) != 0 {
-				out.explained = append(out.explained, pre+deviants[di].class)
+	out.where = fmt.Sprintf("%s on %s window %s %s limit %d mode %s", c.Text, c.DB, c.Window, windowString(c.Params), c.Params.Limit, c.Mode)
+	out.diff = diff
+	out.class = out.pre + "unexplained:" + c.Mode + ":" + c.Query.Shape()
+	out.outcome = "unexplained"
+	out.what = out.where + ": " + diff
+	return out
+}
+
+func popcount(m uint32) int {
+	n := 0
+	for ; m != 0; m &= m - 1 {
+		n++
+	}
+	return n
+}
+
+// attribute chooses, for the whole run, the smallest set of documented deviant rules that explains every explainable
+// disagreement (ties: the set with the more specific rules, i.e. the numerically smaller mask), and then names each
+// disagreement after its smallest explanation inside that set.  A rule that merely happens to reproduce some answers
+// which other rules in force explain anyway is thereby not claimed: when a defect has been fixed its class is no
+// longer reported because of coincidences with the remaining ones.
+func attribute(results []outcome) {
+	var need [][]uint32
+	for i := range results {
+		if len(results[i].explMasks) > 0 {
+			need = append(need, results[i].explMasks)
+		}
+	}
+	if len(need) == 0 {
+		return
+	}
+	all := uint32(1)<<len(deviants) - 1
+	chosen := all
+	for g := uint32(0); g <= all; g++ {
+		if popcount(g) > popcount(chosen) || (popcount(g) == popcount(chosen) && g >= chosen) {
+			continue
+		}
+		ok := true
+		for _, masks := range need {
+			covered := false
+			for _, m := range masks {
+				if m&^g == 0 {
+					covered = true
+					break
+				}
+			}
+			if !covered {
+				ok = false
+				break
 			}
 		}
-		out.class = strings.Join(out.explained, "+")
-		out.outcome = "deviant:" + out.class
-		out.what = fmt.Sprintf("%s: %s (explained by deviant rule %s)", where, diff, out.class)
-		return out
+		if ok {
+			chosen = g
+		}
 	}
-	out.class = pre + "unexplained:" + c.Mode + ":" + c.Query.Shape()
-	out.outcome = "unexplained"
-	out.what = where + ": " + diff
-	return out
+	for i := range results {
+		o := &results[i]
+		if len(o.explMasks) == 0 {
+			continue
+		}
+		best := uint32(0)
+		for _, m := range o.explMasks {
+			if m&^chosen != 0 {
+				continue
+			}
+			if best == 0 || popcount(m) < popcount(best) || (popcount(m) == popcount(best) && m < best) {
+				best = m
+			}
+		}
+		o.explained = nil
+		for di := range deviants {
+			if best&(1<<di) != 0 {
+				o.explained = append(o.explained, o.pre+deviants[di].class)
+			}
+		}
+		o.class = strings.Join(o.explained, "+")
+		o.outcome = "deviant:" + o.class
+		o.what = fmt.Sprintf("%s: %s (explained by deviant rule %s)", o.where, o.diff, o.class)
+	}
 }
 
 func windowString(p Params) string {
@@ -648,6 +707,7 @@ func main() {
 }
 
 func fold(r *ev.Run, cases []caseSpec, results []outcome, dbs map[string]*Database, expired bool) {
+	attribute(results)
 	unsupportedShapes := map[string]int{}
 	chsimUnsupported, harnessErrors := 0, 0
 	var chsimFirst, harnessFirst string
@@ -786,7 +846,9 @@ func replay(r *ev.Run) {
 	}
 	fmt.Printf("TraceQL: %s   database %s   window %s %s   limit %d   path %s   api %s\n", c.Text, c.DB, c.Window, windowString(c.Params), c.Params.Limit, c.Mode, c.API)
 	w := &worker{seam: newSeam()}
-	o := w.evaluate(c, db, true)
+	os1 := []outcome{w.evaluate(c, db, true)}
+	attribute(os1)
+	o := os1[0]
 	r.AddEval(1)
 	switch {
 	case o.planErr != "":
@@ -839,7 +901,9 @@ func adhoc(text string) {
 		c.API = s
 	}
 	w := &worker{seam: newSeam()}
-	o := w.evaluate(c, db, true)
+	os1 := []outcome{w.evaluate(c, db, true)}
+	attribute(os1)
+	o := os1[0]
 	fmt.Printf("outcome=%s class=%s planErr=%s unsupported=%s\n%s\n", o.outcome, o.class, o.planErr, o.unsupp, o.what)
 }
 
